@@ -1085,7 +1085,9 @@ func (env *Zlisp) LeftBindingPower(sx Sexp) (int, error) {
 			//Q("LeftBindingPower: found op '%#v', returning op.Bp = %v", op, op.Bp)
 			return op.Bp, nil
 		}
-		if x.isDot {
+		if x.isDot && len(x.name) > 0 && x.name[0] == '.' {
+			// only a selector such as .field binds to the expression on
+			// its left; a dotted path a.b is an operand of its own.
 			//Q("LeftBindingPower: dot symbol '%v', "+
 			//	"giving it binding-power 80", x.name)
 			return 80, nil
